@@ -300,6 +300,9 @@ func (e *Engine) discharge(res *HarnessResult, cfg RunConfig) {
 	}
 	// 3. safety obligations
 	var live []*Obligation
+	res.Obligations += e.trivObls
+	res.Trivial += e.trivObls
+	res.Discharged += e.trivObls
 	for _, o := range e.obls {
 		res.Obligations++
 		if o.Cond.IsFalse() {
